@@ -35,25 +35,39 @@ impl Intersect for Line2 {
         let u_b = other.dy() * self.dx() - other.dx() * self.dy();
         // Where u_b == 0 the two lines are parallel. In this case we don't need any further checks
         // since we are only concerned with lines that cross, parallel is fine. The coordinates
-        // carry rounding errors, so parallel means parallel to within those errors, otherwise
-        // the position of the crossing point of two collinear segments is decided by noise.
-        let lengths = self.dx().hypot(self.dy()) * other.dx().hypot(other.dy());
-        if u_b.abs() <= 1e-12 * lengths {
+        // carry rounding errors, so parallel means parallel to within those errors.
+        let length_self = self.dx().hypot(self.dy());
+        let length_other = other.dx().hypot(other.dy());
+        if u_b.abs() <= 1e-12 * length_self * length_other {
             return false;
         }
 
-        let ua_t = other.dx() * (self.start.y - other.start.y)
-            - other.dy() * (self.start.x - other.start.x);
-        let ub_t =
-            self.dx() * (self.start.y - other.start.y) - self.dy() * (self.start.x - other.start.x);
+        // The segments cross when the end points of each lie on opposite sides of the line
+        // through the other. Dividing by u_b to find the crossing point amplifies the rounding
+        // errors without bound as the lines approach parallel, so the decision is made from the
+        // signed distances of the end points instead, with a tolerance far below any meaningful
+        // distance. An end point on the other line counts only when it is on the other segment.
+        let eps = 1e-12 * (length_self + length_other);
+        let side = |line: &Self, length: f64, x: f64, y: f64| -> f64 {
+            (line.dx() * (y - line.start.y) - line.dy() * (x - line.start.x)) / length
+        };
+        let along = |line: &Self, length: f64, x: f64, y: f64| -> bool {
+            let t = (line.dx() * (x - line.start.x) + line.dy() * (y - line.start.y)) / length;
+            -eps <= t && t <= length + eps
+        };
+        let other_start = side(self, length_self, other.start.x, other.start.y);
+        let other_end = side(self, length_self, other.end.x, other.end.y);
+        let self_start = side(other, length_other, self.start.x, self.start.y);
+        let self_end = side(other, length_other, self.end.x, self.end.y);
 
-        let ua = ua_t / u_b;
-        let ub = ub_t / u_b;
-        // Should the points ua, ub both lie on the interval [0, 1] the lines intersect. A crossing
-        // exactly at the end of a segment must not be lost to rounding, so the interval is closed
-        // with a tolerance far below any meaningful distance.
-        let eps = 1e-12;
-        -eps <= ua && ua <= 1. + eps && -eps <= ub && ub <= 1. + eps
+        let opposite = |a: f64, b: f64| (a > eps && b < -eps) || (a < -eps && b > eps);
+        if opposite(other_start, other_end) && opposite(self_start, self_end) {
+            return true;
+        }
+        (other_start.abs() <= eps && along(self, length_self, other.start.x, other.start.y))
+            || (other_end.abs() <= eps && along(self, length_self, other.end.x, other.end.y))
+            || (self_start.abs() <= eps && along(other, length_other, self.start.x, self.start.y))
+            || (self_end.abs() <= eps && along(other, length_other, self.end.x, self.end.y))
     }
 
     fn area(&self) -> f64 {
